@@ -392,6 +392,10 @@ func redactPipelineStage(stage interface{}, redactFieldNames bool, keyPath []str
 									newPipeline[i] = redactPipelineStage(stage, redactFieldNames, []string{}, isInSearchStage(stage))
 								}
 								newPipelineMap.Set(subK, newPipeline)
+							} else if subVMap, ok := subV.(*orderedmap.OrderedMap[string, any]); ok {
+								newPipelineMap.Set(subK, redactPipelineStage(subVMap, redactFieldNames, []string{}, false))
+							} else {
+								newPipelineMap.Set(subK, redactScalarValue([]string{subK}, subV, false, false))
 							}
 						}
 						newMap.Set(redactedKey, newPipelineMap)
